@@ -221,6 +221,14 @@ def apply_config(s, spec, prob, which=None):
                 s.SetReducer(lambda a, b: a + b)           # python reduce: left fold
             elif red == "max":
                 s.SetReducer(lambda a, b: a if a >= b else b)
+            elif red == "sumsq":
+                # an ARRAY-LIKE reducer (the whole result is handed over): f([y]) != y, so it matters for one residual too
+                def sumsq(ys):
+                    acc = None
+                    for v in ys:
+                        acc = v * v if acc is None else acc + v * v
+                    return acc
+                s.SetReducer(sumsq, arraylike=True)
         elif item == "monitors":
             from mystic.monitors import Monitor
             if spec.get("evalmon", True):
